@@ -439,6 +439,8 @@ class VC:
         try:
             if _rewrite_with_hyps(goal):
                 return "discharged", "rewrite+polyid", None, None
+            if _rewrite_with_pc(pc, goal):
+                return "discharged", "rewrite(pc)+polyid", None, None
         except z3.Z3Exception:
             pass
         # 0b. purification: every non-linear / conditional / uninterpreted real sub-term becomes an opaque
@@ -896,6 +898,30 @@ def _rewrite_with_hyps(goal):
         if all(_cheaply_valid(p) for p in _flatten_and(c2)):
             return True
     return False
+
+
+def _rewrite_with_pc(pc, goal):
+    """equalities  a == b  of the path condition (lemmas proved earlier, assumptions) with a compound real left side are
+    used as rewrite rules a -> b on an equational goal; valid if the rewritten goal is an identity by normal form"""
+    if not (z3.is_eq(goal) and goal.children()[0].sort_kind() == z3.Z3_REAL_SORT):
+        return False
+    rules = []
+    for h in pc:
+        for e in _flatten_and(h):
+            if z3.is_eq(e) and e.children()[0].sort_kind() == z3.Z3_REAL_SORT:
+                a, b = e.children()
+                if a.num_args() == 0 and b.num_args() > 0:
+                    a, b = b, a
+                if a.num_args() > 0 and not z3.is_rational_value(a):
+                    rules.append((a, b))
+    if not rules:
+        return False
+    c2 = goal
+    for _ in range(2):
+        c2 = z3.substitute(c2, *rules)
+    if c2.get_id() == goal.get_id():
+        return False
+    return _cheaply_valid(c2)
 
 
 def _has_ite(t):
